@@ -75,7 +75,7 @@ def check_C01(res, scratch, tier, seed):
     else:
         run_family(res, scratch, "F2r3s", mcgram_cfg([1], [11, 12], 2, 3, 5, False, [0], False), mk("sparse"),
                    builds=builds, mine=only("C01"))
-    corpus_part(res, scratch, tier, seed, "C01", matrix, ("curated", "chains", "random"), builds=builds, want_trees=False)
+    corpus_part(res, scratch, tier, seed, "C01", matrix, ("curated", "chains", "random", "wide"), builds=builds, want_trees=False)
     res.cov["exhaustive"] = True
     res.assumptions = ["small-scope: exhaustive only over the stated families; the corpus (curated, chain families, seeded random) is a sample judged by TLC",
                        "vectors are computed by TLC from spec/Deriv.tla"]
@@ -106,14 +106,14 @@ def check_trans(res, scratch, tier, seed, prop, matrix, rule):
     mk = lambda vec: blocks_from_vector(vec, matrix, codemap="ascii", mems=(0, 0, 1, 2))
     for tag, cfg in trans_families(tier):
         run_family(res, scratch, tag, cfg, mk, builds=builds, mine=only(prop), timeout=3000)
-    corpus_part(res, scratch, tier, seed, prop, matrix, ("curated", "random_trans"), trees=True, builds=builds, mems=(0, 0, 1, 2))
+    corpus_part(res, scratch, tier, seed, prop, matrix, ("curated", "random_trans", "random_amb"), trees=True, builds=builds, mems=(0, 0, 1, 2))
     res.cov["exhaustive"] = True
     res.assumptions = ["small-scope: exhaustive only over the stated families",
                        "expected translation sets are computed by TLC from spec/Trans.tla (least fixed point over spans)"]
 
 
 def check_C02(res, scratch, tier, seed):
-    check_trans(res, scratch, tier, seed, "C02", full_matrix(ones=(1,), costs=(0,), recs=(0, 1)),
+    check_trans(res, scratch, tier, seed, "C02", full_matrix(ones=(1,), costs=(0, 1), recs=(0, 1)),
                 "every grammar of the skeleton x translation-variant families; TLC computes Trans!Translations for every input; "
                 "with one_parse the canonicalised returned tree must be a member, without ALT nodes, single NIL/ERROR exemplar, "
                 "TERM code/attribute of the token at the position; non-trivial = accepted grammar with alternatives/recursion/nullables")
@@ -359,6 +359,10 @@ def corpus_entries(tier, seed, kinds):
         ents += _corpus.random_grammars(seed, n, maxlen=3)
     if "random_trans" in kinds:
         ents += _corpus.random_grammars(seed + 1000, n, nnts=3, nterms=2, maxrules=5, trans=True, maxlen=4)
+    if "random_amb" in kinds:     # one terminal: heavily ambiguous, nullable symbols frequent
+        ents += _corpus.random_grammars(seed + 3000, n, nnts=3, nterms=1, maxrules=6, maxrhs=3, trans=True, maxlen=5, empty_bias=0.15)
+    if "wide" in kinds:
+        ents += _corpus.wide_terminal_sets()
     if "random_err" in kinds:
         ents += _corpus.random_grammars(seed + 2000, n, nnts=3, nterms=2, maxrules=5, err=True, maxlen=3)
     return ents
@@ -403,7 +407,7 @@ def check_C09(res, scratch, tier, seed):
     mine = lambda r: classify(dict(r)) if owner(r["what"], r["cfg"], r.get("calls", 0)) == "C09" else None
     all_groups = []
     # --- part 1: corpus judged by TLC
-    ents = corpus_entries(tier, seed, ("curated", "random", "random_err", "random_trans"))
+    ents = corpus_entries(tier, seed, ("curated", "random", "random_err", "random_trans", "wide"))
     vecs = corpus_vectors(res, scratch, "corpus_C09", ents, trees=False, timeout=3000)
     blocks = [b for b in (blocks_from_vector(v, matrix, mems=(0, 1), want_trees=False) for v in vecs.values()) if b]
     recs, st = run_harness(os.path.join(builds[0], "yv_replay"), blocks, args=("-t",))
@@ -433,15 +437,19 @@ def check_C09(res, scratch, tier, seed):
         raise Infra("ansic_prep failed: " + p.stdout[-2000:])
     desc = open(os.path.join(adir, "ansic_desc.txt"), "rb").read().hex()
     files = ["tokens_compare_parsers_test.i.txt"] + (["tokens_test.i.txt", "tokens_compare_parsers_test1.i.txt"] if tier == "thorough" else [])
+    # one object, one definition, several different long inputs in a row at every lookahead level (what the
+    # grammar object keeps between parses - e.g. the dynamic lookahead contexts of level 2 - is reused)
+    b = ["G ansic", "DT 1 0 " + desc]
     for f in files:
         toks = open(os.path.join(adir, f)).read().split()
-        b = ["G ansic_" + f, "DT 1 0 " + desc, "W %s %d %s" % (f, len(toks), " ".join(toks)), "X sent=-1"]
-        b += ["P %d 1 0 1 3 0 1" % la for la in (0, 1, 2)]
-        blocks.append(b)
-        if tier == "thorough" or f == files[0]:
-            # same file with a few tokens deleted: recoveries inside a big parse list
-            t2 = [t for i, t in enumerate(toks) if i % 997 != 500]
-            blocks.append(["G ansicerr_" + f, "DT 1 0 " + desc, "W %s_err %d %s" % (f, len(t2), " ".join(t2)), "X sent=-1"] + ["P %d 1 0 1 3 0 1" % la for la in (0, 1, 2)])
+        b += ["W %s %d %s" % (f, len(toks), " ".join(toks)), "X sent=-1"] + ["P %d 1 0 1 3 0 1" % la for la in (2, 0, 1)]
+        # the same file with a few tokens deleted: recoveries inside a big parse list
+        t2 = [t for i, t in enumerate(toks) if i % 997 != 500]
+        b += ["W %s_err %d %s" % (f, len(t2), " ".join(t2)), "X sent=-1"] + ["P %d 1 0 1 3 0 1" % la for la in (2, 0, 1)]
+        # and reversed halves, so that known contexts are met in another order
+        t3 = toks[len(toks) // 2:] + toks[:len(toks) // 2]
+        b += ["W %s_swap %d %s" % (f, len(t3), " ".join(t3)), "X sent=-1"] + ["P %d 1 0 1 3 0 1" % la for la in (2, 0, 1)]
+    blocks.append(b)
     recs, st = run_harness(os.path.join(builds[0], "yv_replay"), blocks, args=("-t",), timeout=1500)
     handle_c09_recs(res, recs, mine, {})
     all_groups += la_groups(recs)
@@ -599,9 +607,9 @@ LEVELS["C17"] = "fault_enumeration"
 def check_C17(res, scratch, tier, seed):
     builds = [build(scratch, "plain", ("yv_replay", "yv_api")), build(scratch, "asan", ("yv_replay", "yv_api"))]
     res.cov["trusted_base"] = TB + ["link-time wrapping of malloc/calloc/realloc/free (harness/yv_common.h) counts and fails library requests"]
-    depth = 8 if tier == "quick" else 12
-    nbeh = 600 if tier == "quick" else 4000
-    t = run_tlc(scratch, "Api", api_cfg([1, 2], depth, [0, 1, 2], [1, 3], [0], ["EmitPools"], maxfaults=1), "api_fault",
+    depth = 10 if tier == "quick" else 14
+    nbeh = 6000 if tier == "quick" else 40000
+    t = run_tlc(scratch, "Api", api_cfg([1, 2], depth, [2], [3], [0], ["EmitPools"], maxfaults=1), "api_fault",
                 simulate=max(1, nbeh // NCPU), depth=depth + 3, timeout=1500, extra=("-seed", str(seed)))
     pools, behs = None, []
     for v in tlc_vectors(t["out"]):
@@ -620,7 +628,16 @@ def check_C17(res, scratch, tier, seed):
         if key not in seen:
             seen.add(key)
             uniq.append(h)
-    maxscen = 60 if tier == "quick" else 400
+    # history-dependent cleanup code is the risk: prefer scenarios in which the faulted call follows successful
+    # parses, in particular all-parses / cost parses, and definitions on the same or another object
+    def richness(h):
+        fi = next(i for i, e in enumerate(h) if e.get("fault"))
+        pre = h[:fi]
+        ok_parses = [e for e in pre if e["op"] == "parse" and e["rcs"] == [0]]
+        return (sum(1 for e in ok_parses if e["one"] == 0 or e["cost"] == 1) * 3 + len(ok_parses) + sum(1 for e in pre if e["op"] == "define")
+                + (2 if len({e.get("s") for e in pre}) > 1 else 0))
+    uniq.sort(key=richness, reverse=True)
+    maxscen = 80 if tier == "quick" else 500
     uniq = uniq[:maxscen]
     pool_lines, inputs = api_pool_lines(pools, codemap="gap")
     res.cov["rule"] = ("TLC simulates Api.tla with one allocation failure per behaviour (create, definition by callbacks or text, parse with caller's or default "
